@@ -659,6 +659,8 @@ class Machine:
             if isinstance(v, Uninit) and create:
                 # writing a field of an uninitialised aggregate: materialise lazily
                 v = base.v = Agg(None, None, None, [])
+            if isinstance(v, Closure):
+                return v.captures[p[2]]      # captured variables are the fields of the closure value
             if isinstance(v, Agg):
                 while len(v.fields) <= p[2]:
                     if not create: raise Unsupported(f'field {p[2]} of {v!r}')
